@@ -12,7 +12,7 @@ def run(ctx):
     ctx.add_assumption('no_std clause: stated for finite x >= +0.0 (negative zero excluded: a mean of squares is never -0.0); '
                        'normal x: 0.93^2 x <= r^2 <= 1.07^2 x; zero / subnormal x: 0 <= r <= 1e-18; negative x: NaN')
     ctx.add_assumption('OUT OF REACH, not claimed: a rigorous floating-point error bound on the running sum after many window '
-                       'turnovers and NaN-freedom in float arithmetic')
+                       'turnovers; non-negativity / NaN-freedom beyond the bounded i16 harness (window 2, 4 frames)')
     if os.path.isdir(os.path.join(VERIF, 'units', 'rms')):
         run_unit(ctx, 'rms', search_crate='signal')
     else:
@@ -26,6 +26,8 @@ def run(ctx):
     ctx.bounded.append(note)
     ctx.bounded.append('BOUNDED: the signal::rms adaptor feeds each of 3 symbolic source frames exactly once and in order to the running RMS '
                        '(outputs bit-equal to a directly driven Rms; pull count; exhaustion is the source\'s)')
+    ctx.bounded.append('BOUNDED: never negative / never NaN for i16 frames (inexact f32 squares), window 2, every history x1, x2, 0, 0 '
+                       '(c11_b_rms_never_negative_i16: the clamp of the running sum is exercised by absorbed small squares)')
     hs = ['c11_b_rms', 'c11_adaptor_rms'] + (['c11_t_rms'] if ctx.tier == 'thorough' else [])
     run_kani(ctx, 'envelope', harness=hs, rustflags='--cfg rustaudio_dasp_verif', harness_timeout='25m', bounded_note=note,
              soft_timeout=(ctx.tier == 'thorough'))
